@@ -38,7 +38,7 @@ PROPS = {
     ),
 }
 
-ENGINES = {'e2e': vlib.e2e_engine, 'store': vlib.store_engine, 'atomic': vlib.atomic_engine, 'encrypt': vlib.encrypt_engine, 'swr': vlib.swr_engine, 'conc': vlib.conc_engine, 'bytes': vlib.bytes_engine}
+ENGINES = {'e2e': vlib.e2e_engine, 'store': vlib.store_engine, 'atomic': vlib.atomic_engine, 'encrypt': vlib.encrypt_engine, 'swr': vlib.swr_engine, 'conc': vlib.conc_engine, 'bytes': vlib.bytes_engine, 'lateinval': vlib.lateinval_engine}
 
 
 def _e2e(profiles, monitors, projection, nq=1500, nt=20000, extra=None):
@@ -64,6 +64,10 @@ PROPS.update({
                 monitors=['C19'], projection=['store'], rule=E2E_RULE, assumptions=[]),
 })
 
+PROPS['C07']['engines'] = ['e2e', 'lateinval']
+PROPS['C07']['rule'] = (E2E_RULE + '; plus the experiment TestLateInvalidation (virtual time): GET, GET in the stale-while-revalidate window with the answer to the background validation '
+                        'held at the origin, an unsafe request (method x status x same/respelled URI or Location / Content-Location of a sibling x representation changed or not), '
+                        'the answer released, GET: what was stored before the unsafe request must not be served from the store')
 PROPS['C10'] = _e2e(['store', 'mix'], ['C10'], ['outcome', 'ncalls'])
 PROPS['C10']['e2e'][0]['faults'] = True
 PROPS['C10']['e2e'][1]['faults'] = True
@@ -74,7 +78,7 @@ for _b in ('fs', 'fsenc', 'fsreopen'):
     PROPS['C09']['e2e'].append(dict(profile='hit', backend=_b, n_quick=120, n_thorough=3000))
     PROPS['C05']['e2e'].append(dict(profile='store', backend=_b, n_quick=80, n_thorough=2000))
 
-PROPS['C14'] = dict(engines=['store'], store=dict(n_quick=120, n_thorough=6000, nops=30, maxval_quick=4096, maxval_thorough=1 << 20),
+PROPS['C14'] = dict(engines=['store'], store=dict(n_quick=120, n_thorough=2500, nops=30, maxval_quick=4096, maxval_thorough=65536),
                     rule=('sequences of 30 Set/Get/Delete/Keys/Reopen operations (a quarter through the maintenance HTTP API) over an adversarial key pool '
                           '(lengths around 36, 191/192, 216 bytes; shared prefixes; all byte values; URL-shaped keys with #; the empty key) on memcache, fscache and '
                           'encrypted fscache; every case is non-trivial; distinct = distinct operation text'),
